@@ -274,8 +274,13 @@ func main() {
 	pick("build", p.nBuild(), func(i int) { runBuildCase(col, i, p.buildCase(i)) })
 
 	relEvals := 0
-	if sel == nil {
+	var rootedSkipped []string
+	if sel == nil || (sel.Part == "open" && sel.Index >= 900000) { // the sequential current-directory parts (replayed as a whole)
 		relEvals = runRelSpecial(col)
+		relEvals += runRelURL(col)
+		var n int
+		n, rootedSkipped = runRooted(col)
+		relEvals += n
 	}
 	os.Stdout, os.Stderr = realStdout, realStderr
 	nStd := compareCapture(col, "stdout", filepath.Join(workRoot, "stdout.cap"), expOut)
@@ -340,7 +345,9 @@ func main() {
 	}
 	run.Assume = []string{
 		"destination alphabet: custom sink (vfok), failing custom sink (vffail), file in a fresh directory, file under a missing directory, stdout, unknown scheme, unparsable URL; thorough adds mixed-case custom scheme, file:// URL, relative file path, stderr; every position of a list names a distinct destination",
-		"file URLs are assembled from the listed components; empty port/query/fragment ('file://h:/p', '?', '#'), upper-case 'LOCALHOST' and scheme-less strings containing '?', '#', '%' are left out (documentation silent)",
+		"file URLs are assembled from the listed components; empty port/query/fragment ('file://h:/p', '?', '#'), upper-case 'LOCALHOST' and scheme-less ABSOLUTE strings containing '?', '#', '%' are left out (the source documents that absolute paths are opened as plain paths; the documentation is silent)",
+		"scheme-less RELATIVE destinations are URLs without a scheme (Open's documentation) and so file URLs: escapes are decoded, a query or fragment makes them invalid, an undecodable escape is an error; 74 such strings are run in the current directory",
+		"file URLs and plain paths whose absolute path cannot be opened (first directory missing at the root: drive-letter look-alikes /c:/..., an escaped colon, ordinary names) while a look-alike tree exists under the current directory: the call must fail naming the absolute path and leave the look-alike tree empty",
 		"scheme names: every string of length <= 3 over {a,Z,1,+,-,.,_,e-acute} plus the empty string; encoder names {\"\", new, existing, json, console} in every sequence of bounded length; nil factories / constructors and encoder-name letter case are left out (documentation silent)",
 		"std-log: all 256 zapcore.Level values; prior flags and prefixes from the listed sets; termination behaviour of Panic/Fatal levels is C06's subject and not judged here",
 		"a sink's Close returning an error, and calling the close function twice, are not exercised (documentation silent)",
@@ -365,6 +372,8 @@ func main() {
 		"build_cases":                        p.nBuild(),
 		"stdlog_cases":                       stdEvals,
 		"url_cases":                          len(p.urls),
+		"current_directory_cases":            relEvals,
+		"rooted_cases_skipped":               rootedSkipped,
 		"registry_orders":                    len(regs),
 		"registry_attempts":                  regEvals,
 		"registry_lookups":                   regLookups,
